@@ -74,6 +74,64 @@ func loadVia(reader string, data []byte) (lib *ast.KnowledgeLibrary, err error, 
 	return
 }
 
+var c12DenseOpts = TraceOpts{MinRules: 1, MaxRules: 3, MinPool: 2, MaxPool: 4, Control: true, Announce: true, AnnounceDense: true, Calls: true, Depth: 2}
+
+// c12Behaviour stores, loads (twice) and runs one small announce-dense program; false = violation.
+func c12Behaviour(c *Ctx, idx, bi int, cr *CaseResult) bool {
+	r := c.Rng(idx, 1000+bi)
+	prog := GenTraceProgram(r, c12DenseOpts)
+	text := traceStyle(c.Rng(idx, 2000+bi)).PrintProgram(prog)
+	lib, err := BuildLib(text)
+	if err != nil {
+		return true
+	}
+	cur := lib
+	for round := 1; round <= 2; round++ {
+		var b bytes.Buffer
+		if err := cur.StoreKnowledgeBaseToWriter(&b, kbName, kbVer); err != nil {
+			cr.violate(fmt.Sprintf("store (generation %d) of a successfully built knowledge base failed: %v", round, err), map[string]interface{}{"grl": text})
+			return false
+		}
+		l2, err, pn := loadVia("plain", b.Bytes())
+		cr.Evals++
+		if err != nil || pn != nil {
+			cr.violate(fmt.Sprintf("generation %d: a stored stream does not load: err=%v panic=%v", round, err, pn), map[string]interface{}{"grl": text})
+			return false
+		}
+		for si := 0; si < 2; si++ {
+			inst, err := l2.NewKnowledgeBaseInstance(kbName, kbVer)
+			if err != nil {
+				cr.violate(fmt.Sprintf("generation %d: no instance of the loaded knowledge base: %v", round, err), map[string]interface{}{"grl": text})
+				return false
+			}
+			init := GenState(c.Rng(idx, 3000+bi*4+si))
+			cfg := RunCfg{MaxCycle: uint64(6 + si*12)}
+			res := Run(inst, prog, CopyStateLive(init), cfg)
+			cr.Evals++
+			a := Analyze(prog, res, cfg, nil)
+			var vs []Violation
+			if res.Panic != nil {
+				vs = append(vs, Violation{"C12", 0, "", fmt.Sprintf("panic: %v", res.Panic)})
+			}
+			vs = append(vs, MonFiresOnlyWhenTrue(a)...)
+			vs = append(vs, MonCandidatesComplete(a)...)
+			vs = append(vs, MonMaxSalience(a)...)
+			vs = append(vs, MonReplayEqual(a)...)
+			vs = append(vs, MonControl(a)...)
+			if len(vs) > 0 {
+				cr.violate(fmt.Sprintf("generation %d: an instance of the loaded knowledge base does not behave like the stored rules: %s", round, joinViol(vs[:min(2, len(vs))])), caseDetail(text, "grb", init, res, vs))
+				return false
+			}
+			cr.inc("announce_dense_runs")
+			if len(a.Firings()) > 1 {
+				cr.NonTrivial = append(cr.NonTrivial, hashStr(fmt.Sprintf("ad|%s|%d|%d", text, round, si)))
+			}
+		}
+		cur = l2
+	}
+	return true
+}
+
 var c12Opts = TraceOpts{MinRules: 1, MaxRules: 4, MinPool: 3, MaxPool: 7, Control: true, Announce: true, Calls: true, Strs: true, Times: true, Depth: 3}
 
 func runC12Case(c *Ctx, idx int) *CaseResult {
@@ -96,7 +154,7 @@ func runC12Case(c *Ctx, idx int) *CaseResult {
 		return cr
 	}
 	orig := lib.GetKnowledgeBase(kbName, kbVer)
-	wantCanon := CanonKB(orig, true)
+	wantCanon := CanonKB(orig, false)
 	// ---- store
 	w := &recWriter{}
 	if err := lib.StoreKnowledgeBaseToWriter(w, kbName, kbVer); err != nil {
@@ -119,7 +177,7 @@ func runC12Case(c *Ctx, idx int) *CaseResult {
 				return cr
 			}
 			kb2 := l2.GetKnowledgeBase(kbName, kbVer)
-			if got := CanonKB(kb2, true); got != wantCanon {
+			if got := CanonKB(kb2, false); got != wantCanon {
 				cr.violate(fmt.Sprintf("round %d (%s reader): the loaded knowledge base differs from the stored one: %s", round, rd, DiffCanon(got, wantCanon)), map[string]interface{}{"grl": text})
 				return cr
 			}
@@ -168,6 +226,17 @@ func runC12Case(c *Ctx, idx int) *CaseResult {
 		}
 		if round == 1 {
 			cur = next
+		}
+	}
+	// ---- (a') behaviour of loaded rule sets that depend on the stored texts: Forget/Changed of
+	// a variable and of a call, which the engine resolves through the texts kept in the nodes
+	nb := 12
+	if c.Tier == "thorough" {
+		nb = 60
+	}
+	for bi := 0; bi < nb; bi++ {
+		if !c12Behaviour(c, idx, bi, cr) {
+			return cr
 		}
 	}
 	// ---- (b) truncation: every offset (plain reader); boundaries +-1 and a sample through hostile readers
@@ -270,7 +339,7 @@ func runC12Case(c *Ctx, idx int) *CaseResult {
 	// ---- (d) overwrite=false leaves an existing entry untouched
 	other, err := BuildLib(`rule Keep "existing" salience 7 { when F.A == 424242 then F.B = 1; }`)
 	if err == nil {
-		before := CanonKB(other.GetKnowledgeBase(kbName, kbVer), true)
+		before := CanonKB(other.GetKnowledgeBase(kbName, kbVer), false)
 		ptr := other.GetKnowledgeBase(kbName, kbVer)
 		_, lerr := other.LoadKnowledgeBaseFromReader(bytes.NewReader(stream), false)
 		cr.Evals++
@@ -279,12 +348,12 @@ func runC12Case(c *Ctx, idx int) *CaseResult {
 			cr.violate("load with overwrite=false into a library that already holds this name/version returned nil", map[string]interface{}{"grl": text})
 			return cr
 		}
-		if after != ptr || CanonKB(after, true) != before {
+		if after != ptr || CanonKB(after, false) != before {
 			cr.violate("load with overwrite=false replaced or modified the existing entry", map[string]interface{}{"grl": text})
 			return cr
 		}
 		// overwrite=true replaces it
-		if _, lerr := other.LoadKnowledgeBaseFromReader(bytes.NewReader(stream), true); lerr != nil || CanonKB(other.GetKnowledgeBase(kbName, kbVer), true) != wantCanon {
+		if _, lerr := other.LoadKnowledgeBaseFromReader(bytes.NewReader(stream), true); lerr != nil || CanonKB(other.GetKnowledgeBase(kbName, kbVer), false) != wantCanon {
 			cr.violate(fmt.Sprintf("load with overwrite=true did not install the stored knowledge base (err=%v)", lerr), map[string]interface{}{"grl": text})
 			return cr
 		}
